@@ -10,7 +10,8 @@
  *
  * dumps: records joined by ';' in document order (schema: lys_getnext order of the modules of the case, an RPC / action has
  *   its input children, for type y its output children):   <depth>,<module>,<name>,<kind>[,<value-hex>]
- *   kind: c<presence> container (rpc, action, notification: c1) | L<keyless><config-w> list | T<config-w> leaf-list | f<key> leaf | a anydata / anyxml
+ *   kind: c<presence> container (rpc, action, notification: c1) | L<keyless><config-w> list | T<config-w>~<type> leaf-list |
+ *         f<key>~<type> leaf | a anydata / anyxml;  type: s | i8..i64 | u8..u64 | b | e<hex name>.<hex name>... | x (other)
  *   an empty dump is "-"
  * queries and answers:
  *   P                      -> P:<hex lyd_path(LYD_PATH_STD) of every node, document order, joined by ','>
@@ -18,6 +19,9 @@
  *                             example tree of Properties_C15_pathmodel.v)
  *   F:<path-hex>           -> F:<0|E ly_path_parse()>:<S<pos> | I<pos> | N | E<rc>>   lyd_find_path(first sibling, path, type == y)
  *                             pos = child indices from the top level joined by '.'; I = LY_EINCOMPLETE with the partial match
+ *   Y:<path-hex>           -> Y:<positions of the nodes lyd_find_xpath(tree, path) selects, joined by ',' | - | E<rc>>
+ *   G:<path-hex>:<val-hex> -> G:ok | G:BAD-<what>:<path-hex>   lyd_change_term(node of path, value), then the NEW path of the node
+ *                             has to find it (lyd_find_path, lyd_find_xpath) and lyd_new_path2 has to report LY_EEXIST; value restored
  *   N:<path-hex>:<val-hex> -> N:<E<rc> | dump of the created tree>                   lyd_new_path2(NULL, ctx, path, value, ..)
  *   X:<path-hex>:<val-hex> -> X:<E<rc> | <pos of the parent of the first created node or ->:<dump of the created chain>>
  *                             lyd_new_path2(tree, NULL, path, value, ..); the created nodes are freed again
@@ -37,6 +41,39 @@ log_cb(LY_LOG_LEVEL level, const char *msg, const char *data_path, const char *s
     }
 }
 
+/* type of a leaf / leaf-list: s string | i8 .. i64, u8 .. u64 | b boolean | e<hex name>.<hex name>... enumeration | x other */
+static void
+put_type(const struct lysc_type *t)
+{
+    LY_ARRAY_COUNT_TYPE u;
+
+    fputc('~', stdout);
+    switch (t->basetype) {
+    case LY_TYPE_STRING: printf("s"); break;
+    case LY_TYPE_INT8: printf("i8"); break;
+    case LY_TYPE_INT16: printf("i16"); break;
+    case LY_TYPE_INT32: printf("i32"); break;
+    case LY_TYPE_INT64: printf("i64"); break;
+    case LY_TYPE_UINT8: printf("u8"); break;
+    case LY_TYPE_UINT16: printf("u16"); break;
+    case LY_TYPE_UINT32: printf("u32"); break;
+    case LY_TYPE_UINT64: printf("u64"); break;
+    case LY_TYPE_BOOL: printf("b"); break;
+    case LY_TYPE_ENUM:
+        printf("e");
+        LY_ARRAY_FOR(((const struct lysc_type_enum *)t)->enums, u) {
+            const char *nm = ((const struct lysc_type_enum *)t)->enums[u].name;
+
+            if (u) {
+                fputc('.', stdout);
+            }
+            vputhex(nm, strlen(nm));
+        }
+        break;
+    default: printf("x"); break;
+    }
+}
+
 static void
 put_kind(const struct lysc_node *s)
 {
@@ -46,9 +83,11 @@ put_kind(const struct lysc_node *s)
         break;
     case LYS_LEAFLIST:
         printf("T%d", (s->flags & LYS_CONFIG_W) ? 1 : 0);
+        put_type(((const struct lysc_node_leaflist *)s)->type);
         break;
     case LYS_LEAF:
         printf("f%d", (s->flags & LYS_KEY) ? 1 : 0);
+        put_type(((const struct lysc_node_leaf *)s)->type);
         break;
     case LYS_ANYDATA:
     case LYS_ANYXML:
@@ -227,6 +266,78 @@ query(struct ly_ctx *ctx, struct lyd_node *tree, int out, char *q)
             put_rc(rc);
         }
         break;
+    case 'Y': {
+        /* lyd_find_xpath(tree, path): the positions of the selected nodes */
+        struct ly_set *set = NULL;
+        uint32_t k;
+
+        if (!tree) {
+            printf("-");
+            break;
+        }
+        rc = lyd_find_xpath(tree, path, &set);
+        if (rc) {
+            put_rc(rc);
+        } else if (!set || !set->count) {
+            printf("-");
+        } else {
+            for (k = 0; k < set->count; k++) {
+                if (k) {
+                    fputc(',', stdout);
+                }
+                put_pos(set->dnodes[k]);
+            }
+        }
+        ly_set_free(set, NULL);
+        break;
+    }
+    case 'G': {
+        /* change the value of the term node the path selects (lyd_change_term), then the path lyd_path() prints for it has
+         * to find it again (path search and XPath search) and creating it has to report LY_EEXIST; the old value is
+         * restored afterwards */
+        struct ly_set *set = NULL;
+        char *old = NULL, *p2 = NULL;
+        struct lyd_node *m2 = NULL, *np2 = NULL, *nn2 = NULL;
+        const char *bad = NULL;
+
+        if (!tree || lyd_find_path(tree, path, out, &m) || !m || !(m->schema->nodetype & LYD_NODE_TERM)) {
+            printf("ok");
+            break;
+        }
+        old = strdup(lyd_get_value(m));
+        rc = lyd_change_term(m, val ? val : "");
+        if (rc && (rc != LY_EEXIST)) {
+            /* not changed (same value, invalid value) */
+            printf("ok");
+            free(old);
+            break;
+        }
+        tree = lyd_first_sibling(tree);
+        p2 = lyd_path(m, LYD_PATH_STD, NULL, 0);
+        if (!p2) {
+            bad = "path";
+        } else if (lyd_find_path(tree, p2, out, &m2) || (m2 != m)) {
+            bad = "find_path";
+        } else if (lyd_find_xpath(tree, p2, &set) || !set || (set->count != 1) || (set->dnodes[0] != m)) {
+            bad = "find_xpath";
+        } else if (lyd_new_path2(tree, NULL, p2, lyd_get_value(m), 0, LYD_ANYDATA_STRING, nopts, &np2, &nn2) != LY_EEXIST) {
+            bad = "new_path";
+            if (np2) {
+                lyd_free_tree(np2);
+            }
+        }
+        if (bad) {
+            printf("BAD-%s:", bad);
+            vputhex(p2 ? p2 : "", p2 ? strlen(p2) : 0);
+        } else {
+            printf("ok");
+        }
+        ly_set_free(set, NULL);
+        free(p2);
+        lyd_change_term(m, old);
+        free(old);
+        break;
+    }
     case 'N':
         rc = lyd_new_path2(NULL, ctx, path, VAL(val), val ? strlen(val) : 0, LYD_ANYDATA_STRING, nopts, &np, &nn);
         if (rc) {
@@ -349,6 +460,7 @@ main(void)
                     fputc(' ', stdout);
                 }
                 query(ctx, tree, out, c.f[i]);
+                tree = lyd_first_sibling(tree);
             }
         }
         lyd_free_all(tree);
